@@ -34,9 +34,28 @@ func (t gtask) String() string {
 	return fmt.Sprintf("%d %d %d %d %d %d %s", t.g, t.time, t.T, t.R, b2i(t.discard), b2i(t.cb), strings.Join(bs, ","))
 }
 
-func emit(c *hx.Ctx, n int, parks []park, tasks []gtask) {
+func emit(c *hx.Ctx, n int, parks []park, tasks []gtask) { emitHead(c, fmt.Sprintf("n %d", n), parks, tasks) }
+
+func emitHead(c *hx.Ctx, head string, parks []park, tasks []gtask) {
+	var ts []string
+	for _, t := range tasks {
+		ts = append(ts, t.String())
+	}
+	emitRaw(c, head, parks, ts)
+}
+
+// optTask renders a task in the option-list form: <g> <time> <opts> <behs>
+func optTask(g int, tm int64, opts string, behs []beh) string {
+	var bs []string
+	for _, b := range behs {
+		bs = append(bs, fmt.Sprintf("%d:%d:%d:%d", b.dur, b2i(b.hon), b.v, b.e))
+	}
+	return fmt.Sprintf("%d %d %s %s", g, tm, opts, strings.Join(bs, ","))
+}
+
+func emitRaw(c *hx.Ctx, head string, parks []park, tasks []string) {
 	var sb strings.Builder
-	fmt.Fprintf(&sb, "n %d", n)
+	sb.WriteString(head)
 	for _, p := range parks {
 		fmt.Fprintf(&sb, " park %d:%d:%d", p.site, p.ord, p.until)
 	}
@@ -45,7 +64,7 @@ func emit(c *hx.Ctx, n int, parks []park, tasks []gtask) {
 		if i > 0 {
 			sb.WriteString(" ; ")
 		}
-		sb.WriteString(t.String())
+		sb.WriteString(t)
 	}
 	c.Emit("%s", sb.String())
 }
@@ -252,6 +271,109 @@ func gen(c *hx.Ctx) {
 			emit(c, n, nil, tasks)
 			c.Count(fmt.Sprintf("large_pool_n%d", n))
 		}
+	}
+	// 3e. option LISTS: the options are functions applied left to right (WithTimeout / WithRetry ignore values <= 0,
+	// WithDiscardOnBusy and WithError always assign): repeated, zero, negative and huge values in every order; pool option
+	// lists likewise (WithSize ignores <= 0, WithContextBuilder ignores nil). The handlers need the timeout that is in effect.
+	for i := 0; i < c.Budget(260, 4000); i++ {
+		n := 1 + c.Rng.Intn(2)
+		head := fmt.Sprintf("n %d", n)
+		if c.Rng.Intn(3) == 0 {
+			ps := []string{fmt.Sprintf("s%d", n)}
+			for j := 0; j < 1+c.Rng.Intn(3); j++ {
+				ps = append(ps, []string{"s0", "s-3", "c0", fmt.Sprintf("s%d", n), "c1", "c0"}[c.Rng.Intn(6)])
+			}
+			if c.Rng.Intn(4) == 0 {
+				ps = append([]string{fmt.Sprintf("s%d", 1+c.Rng.Intn(4))}, ps...)
+			}
+			head = "popts " + strings.Join(ps, ",")
+		}
+		var tasks []string
+		var tm int64 = 10
+		for k := 0; k < 1+c.Rng.Intn(3); k++ {
+			var os []string
+			pos := []int64{1000, 2000, 600}
+			for j := 0; j < 1+c.Rng.Intn(5); j++ {
+				switch c.Rng.Intn(10) {
+				case 0, 1:
+					os = append(os, fmt.Sprintf("t%d", pos[c.Rng.Intn(3)]))
+				case 2:
+					os = append(os, []string{"t0", "t-1", "t-1000000"}[c.Rng.Intn(3)])
+				case 3:
+					os = append(os, fmt.Sprintf("r%d", 1+c.Rng.Intn(3)))
+				case 4:
+					os = append(os, []string{"r0", "r-1", "r-7"}[c.Rng.Intn(3)])
+				case 5:
+					os = append(os, []string{"d0", "d1"}[c.Rng.Intn(2)])
+				case 6:
+					os = append(os, []string{"e0", "e1"}[c.Rng.Intn(2)])
+				case 7:
+					os = append(os, "t3000000000000000000") // huge: ~95 years
+				case 8: // the classic: defaults followed by an unset (zero) override
+					os = append(os, fmt.Sprintf("t%d", pos[c.Rng.Intn(3)]), fmt.Sprintf("r%d", 1+c.Rng.Intn(3)), "e1", "t0", "r0")
+				case 9:
+					os = append(os, "e1")
+				}
+			}
+			ts := taskSpec{}
+			ts.opts, _ = parseOpts(strings.Join(os, ","))
+			ts.foldOpts()
+			base := ts.teff
+			if base > 100000 {
+				base = 1000
+			}
+			var bs []beh
+			for j := 0; j < ts.reff; j++ {
+				b := beh{dur: []int64{base / 2, base, 3 * base, 3*base + 500}[c.Rng.Intn(4)], hon: c.Rng.Intn(4) != 0, v: 10*(k+1) + j}
+				if c.Rng.Intn(4) == 0 {
+					b.e = errKinds[c.Rng.Intn(len(errKinds))]
+				}
+				bs = append(bs, b)
+			}
+			tasks = append(tasks, optTask(k%2, tm, strings.Join(os, ","), bs))
+			tm += int64(1 + c.Rng.Intn(3000))
+		}
+		emitRaw(c, head, nil, tasks)
+		c.Count("option_lists")
+	}
+	// 3f. the dispatchers' own context (WithContextBuilder) is cancelled at a scripted instant: before the Send, between
+	// attempts, during an attempt. The instant is odd, every other number even, so nothing ties with the cancellation.
+	for i := 0; i < c.Budget(200, 3000); i++ {
+		n := 1 + c.Rng.Intn(3)
+		T := int64(1000)
+		var X int64
+		switch c.Rng.Intn(4) {
+		case 0:
+			X = 1 // before everything
+		case 1:
+			X = 2*int64(c.Rng.Intn(400)) + 101 // during the first attempts
+		default:
+			X = 2*int64(c.Rng.Intn(2500)) + 201
+		}
+		popts := fmt.Sprintf("s%d,c1", n)
+		if c.Rng.Intn(6) == 0 {
+			popts = fmt.Sprintf("s%d,c1,c0,s0", n) // a nil builder / non-positive size later in the list changes nothing
+		}
+		if c.Rng.Intn(10) == 0 {
+			popts = fmt.Sprintf("s%d,c0", n) // nil builder only: the contexts are context.Background, the cancellation is moot
+		}
+		var tasks []gtask
+		var tm int64 = 10
+		for k := 0; k < 1+c.Rng.Intn(4); k++ {
+			R := 1 + c.Rng.Intn(3)
+			var bs []beh
+			for j := 0; j < R; j++ {
+				b := beh{dur: []int64{0, 400, 1000, 1600, 5000}[c.Rng.Intn(5)], hon: c.Rng.Intn(3) != 0, v: 10*(k+1) + j}
+				if c.Rng.Intn(3) == 0 {
+					b.e = []int{2, 4, 102, 104}[c.Rng.Intn(4)]
+				}
+				bs = append(bs, b)
+			}
+			tasks = append(tasks, gtask{g: k % 2, time: tm, T: T, R: R, discard: c.Rng.Intn(3) != 0, cb: c.Rng.Intn(4) != 0, behs: bs})
+			tm += 2 * int64(1+c.Rng.Intn(700))
+		}
+		emitHead(c, fmt.Sprintf("popts %s basecancel %d", popts, X), nil, tasks)
+		c.Count("base_ctx_cancelled")
 	}
 	// 4. random multi-task scenarios
 	for i := 0; i < c.Budget(1600, 12000); i++ {
